@@ -1,5 +1,6 @@
 
 #pragma once
+#include "verif_hooks.h"
 
 #include <algorithm>
 #include <iomanip>
@@ -180,6 +181,7 @@ next_layer:
         // the root node of the some layer was deleted.
         // So it must retry from root of the all tree.
         if (early_abort) { return status::WARN_CONCURRENT_OPERATIONS; }
+        YK_WAIT(YK_W_RETRY, nullptr);
         goto retry_from_root; // NOLINT
     }
     constexpr std::size_t tuple_node_index = 0;
@@ -205,6 +207,7 @@ retry_fetch_lv:
          * It may be change the correct border between atomically fetching border node and
          * atomically fetching lv.
          */
+        YK_WAIT(YK_W_RETRY, nullptr);
         goto retry_from_root; // NOLINT
     }
     if (lv_ptr != nullptr && target_border->get_key_length_at(lv_pos) > sizeof(key_slice_type)) {
@@ -222,6 +225,7 @@ retry_fetch_lv:
         if ((final_check.get_deleted() && !final_check.get_root()) || // this border was deleted.
             final_check.get_vsplit() != v_at_fb.get_vsplit()) { // this border may be incorrect.
             if (early_abort) { return status::WARN_CONCURRENT_OPERATIONS; }
+            YK_WAIT(YK_W_RETRY, nullptr);
             goto retry_from_root; // NOLINT
         }
         // check whether fetching lv is still correct.
@@ -252,6 +256,7 @@ retry_fetch_lv:
             node_version64_body final_check = target_border->get_stable_version();
             if (final_check.get_vsplit() != v_at_fb.get_vsplit() ||
                 (final_check.get_deleted() && !final_check.get_root())) {
+                YK_WAIT(YK_W_RETRY, nullptr);
                 goto retry_from_root; // NOLINT
             }
             if (final_check.get_vinsert_delete() != v_at_fetch_lv.get_vinsert_delete()) {
@@ -322,6 +327,7 @@ next_layer:
 
     if (false) { // NOLINT(*-simplify-boolean-expr)
 retry_from_root:
+        YK_WAIT(YK_W_RETRY, nullptr);
         base_node* root = ctx->stack_top().layer_root;
         auto rv = root->get_stable_version();
         if (rv.get_deleted()) {
